@@ -223,7 +223,10 @@ func validateBackendTLSPolicyMatchingAllBackends(backendRefs []BackendRef) *cond
 		// CACertificateRefs are local references: equal refs in different namespaces name different ConfigMaps.
 		return (len(p1.Spec.Validation.CACertificateRefs) > 0 && p1.Namespace != p2.Namespace) ||
 			!slices.Equal(p1.Spec.Validation.CACertificateRefs, p2.Spec.Validation.CACertificateRefs) ||
-			p1.Spec.Validation.WellKnownCACertificates != p2.Spec.Validation.WellKnownCACertificates ||
+			!wellKnownCACertsEqual(
+				p1.Spec.Validation.WellKnownCACertificates,
+				p2.Spec.Validation.WellKnownCACertificates,
+			) ||
 			p1.Spec.Validation.Hostname != p2.Spec.Validation.Hostname
 	}
 
@@ -260,6 +263,15 @@ func validateBackendTLSPolicyMatchingAllBackends(backendRefs []BackendRef) *cond
 		return helpers.GetPointer(staticConds.NewRouteBackendRefUnsupportedValue(msg))
 	}
 	return nil
+}
+
+// wellKnownCACertsEqual compares the values: the fields of two policies never point to the same variable.
+func wellKnownCACertsEqual(c1, c2 *v1alpha3.WellKnownCACertificatesType) bool {
+	if c1 == nil || c2 == nil {
+		return c1 == c2
+	}
+
+	return *c1 == *c2
 }
 
 func findBackendTLSPolicyForService(
